@@ -25,7 +25,7 @@ from props.C14 import ag_sub
 PROP = 'C15'
 TOKEN = '123456789'            # the queried (non-tabulated) code; get_distance(TOKEN) is the symbolic distance
 DMIN, DMAX = 20, 400000
-AGES = [30, 47.5, 80, 100]
+AGES = [10, 30, 47.5, 80, 100]
 TOL = Fraction(1, 10 ** 9)
 
 
@@ -178,9 +178,9 @@ def unit_best(args):
     return res
 
 
-def spec_check(year, g, age, d, fn):
+def spec_check(year, g, age, d, fn, grader=None):
     """concrete clause check on the real code for a whole-metre distance (bare-number code)"""
-    real = _ag().AgeGrader(year)
+    real = grader or _ag().AgeGrader(year)
     table = real.get_data()[g]
     i0, rr = running_rows(table)
     code = str(d)
@@ -191,7 +191,8 @@ def spec_check(year, g, age, d, fn):
     except Exception as e:
         return False, 'raises %s' % type(e).__name__
     dk = d / 1000
-    vals = [real.calculate_factor(g, age, r[0]) for r in rr] if fn == 'factor' else [r[2] for r in rr]
+    fresh = _ag().AgeGrader(year) if grader is None else real
+    vals = [fresh.calculate_factor(g, age, r[0]) for r in rr] if fn == 'factor' else [r[2] for r in rr]
     for i, a, b in scan_brackets(rr):
         if a < dk < b:
             lo, hi = min(vals[i - 1], vals[i]), max(vals[i - 1], vals[i])
@@ -266,7 +267,37 @@ def ground_chunk(args):
     return n, bad[:5]
 
 
+def cross_chunk(args):
+    """histories across the shared grader objects: the same odd distances asked of both table years, both genders and in
+    alternation with tabulated events, in ONE process (a call must not depend on what was asked before)"""
+    seed, = args
+    import random
+    rnd = random.Random(seed)
+    n = 0
+    bad = []
+    ds = [199, 1001, 2400, 4828, 7000, 11000, 16091, 30001, 60000, 250000] + [rnd.randrange(20, 400000) for _ in range(40)]
+    graders = {y: _ag().AgeGrader(y) for y in ('2015', '2023')}
+    for d in ds:
+        for order in (('2015', '2023'), ('2023', '2015')):
+            for y in order:
+                for g in 'mf':
+                    for fn in ('best', 'factor'):
+                        n += 1
+                        ok, why = spec_check(y, g, 52, d, fn, grader=graders[y])
+                        if not ok:
+                            bad.append((d, 52, fn, 'after other calls on the shared graders: ' + str(why), y, g))
+                    # interleave a tabulated look-up, as calculate_age_grade does
+                    graders[y].calculate_factor(g, 40, '100')
+                    n += 1
+                    ok, why = spec_check(y, g, 52, d, 'factor', grader=graders[y])
+                    if not ok:
+                        bad.append((d, 52, 'factor', 'repeated after a tabulated look-up: ' + str(why), y, g))
+    return n, bad[:4]
+
+
 def _work(job):
+    if job[0] == 'x':
+        return ('cross', job[1], cross_chunk(job[1]))
     if job[0] == 'f':
         r = unit_factor(job[1])
     elif job[0] == 'b':
@@ -316,11 +347,19 @@ def main(tier, seed):
                 J.append(('f', (year, g, age)))
             J.append(('b', (year, g)))
             J.append(('g', (year, g, seed)))
+    J.append(('x', (seed,)))
     results = report.pool_map(_work, J)
     gn = 0
     for res in results:
         if isinstance(res, dict) and '_crash' in res:
             U.absorb(run, res)
+            continue
+        if isinstance(res, tuple) and res[0] == 'cross':
+            n, bad = res[2]
+            gn += n
+            for d, age, fn, why, y, g in bad[:2]:
+                run.violation('standin/history-independence', dict(call='%s of %r on the shared AgeGrader(%r) %r' % (fn, str(d), y, g), observed=why,
+                                                                   input=[y, g, age, d, fn]), True)
             continue
         if isinstance(res, tuple):
             _, key, (n, bad) = res
